@@ -85,7 +85,8 @@ EditArgsOK(cur, e) ==
     [] OTHER -> TRUE
 BuildClauses(cur, e) ==
   << <<"C03.build.shape", e.anom = <<>> >>,
-     <<"T.edit.args",     EditArgsOK(cur, e)>> >>
+     <<"C03.build.total", e.out = "value">>,
+     <<"C03.build.args",     EditArgsOK(cur, e)>> >>
   \o Guarded(EditArgsOK(cur, e), << <<"C03.build.step",  SameModel(e.post, BuildExpected(cur, e))>> >>)
   \o WfClauses("C03.build", e.post)
 
